@@ -10,7 +10,7 @@ from gens import pack, fmt_hex
 from vlib import Broken
 
 ID = "C18"
-LEAN_MODULES = ["LexVerif.Props.C18", "LexVerif.Props.Literals.UtilFormatFlags", "LexVerif.Props.Literals.UtilFeatureFormat", "LexVerif.Props.Literals.UtilNotFeatureFormat", "LexVerif.Props.Literals.UtilFormatBuilder", "LexVerif.Props.Literals.ParseFloatApi", "LexVerif.Props.Literals.ParseFloatOptions", "LexVerif.Props.Literals.ParseIntegerApi", "LexVerif.Props.Literals.WriteFloatOptions", "LexVerif.Props.Literals.WriteFloatWrite", "LexVerif.Props.Literals.WriteIntegerApi"]
+LEAN_MODULES = ["LexVerif.Props.C18", "LexVerif.Props.C18Builder", "LexVerif.Props.C18Options", "LexVerif.Props.Literals.UtilFormatFlags", "LexVerif.Props.Literals.UtilFeatureFormat", "LexVerif.Props.Literals.UtilNotFeatureFormat", "LexVerif.Props.Literals.UtilFormatBuilder", "LexVerif.Props.Literals.ParseFloatApi", "LexVerif.Props.Literals.ParseFloatOptions", "LexVerif.Props.Literals.ParseIntegerApi", "LexVerif.Props.Literals.WriteFloatOptions", "LexVerif.Props.Literals.WriteFloatWrite", "LexVerif.Props.Literals.WriteIntegerApi"]
 GEN = ["format_flags", "literals"]
 TRUSTED = [
     "Lean 4.33.0 kernel; axioms of each theorem listed under coverage.theorems",
@@ -36,8 +36,8 @@ US = ord("_")
 
 
 TECHNIQUE = 'Lean 4 proof: model of format_error_impl over regenerated flag constants = declarative validity specification, for every 128-bit format and feature set; builder/getter/setter lemmas; correspondence on exhaustive per-field streams'
-LEVEL_TEXT = "Complete Lean theorems for every packed format (all 2^128 values) and feature set: formatError = first violated documented constraint, valid iff FormatValid, build_strict panics iff invalid, getters reflect setters; bit layout constants are regenerated from the compiled crate and proved equal to the model's layout. rebuild/build round trip is stated (full Prop) and proved only for flags and byte fields separately. Entry-point behaviour on invalid formats/punctuation is checked by correspondence (all four with_options entry points)."
-LEVEL_NOTE = 'Trusted: Lean kernel; that Model.FormatError mirrors feature_format.rs/not_feature_format.rs (correspondence via the verif_format_error hook on >300k formats); option-string validators are modelled by correspondence only.'
+LEVEL_TEXT = "Complete Lean theorems for every packed format (all 2^128 values) and feature set: formatError = first violated documented constraint, valid iff FormatValid, build_strict panics iff invalid, getters reflect setters; bit layout constants are regenerated from the compiled crate and proved equal to the model's layout. rebuild/build round trips are proved exactly (Props/C18Builder: rebuild (build b) = normalize b; which bits build (rebuild f) keeps, clears, fills). Option validators (parse/write float, integer) are modelled and proved sound and complete w.r.t. the documented constraints (Props/C18Options). Entry-point behaviour on invalid formats/punctuation is checked by correspondence (all four with_options entry points)."
+LEVEL_NOTE = 'Trusted: Lean kernel; that Model.FormatError mirrors feature_format.rs/not_feature_format.rs (correspondence via the verif_format_error hook on >300k formats); option validators: Model.OptionsValid tied to options.rs by correspondence (pf/wf/bs opterr kinds, po/wo component ops).'
 
 
 def feature_sets(tier):
@@ -223,8 +223,7 @@ def _special_strings(first, rng):
 
 def parse_opts_spec(exp, dp, nan, inf, infinity):
     """documented validity of ParseFloatOptions (docs of lexical-parse-float/src/options.rs): error kind or None"""
-    def ascii_ok(c):
-        return c < 0x80
+    ascii_ok = _ascii_ok
     if not ascii_ok(exp):
         return "InvalidExponentSymbol"
     if not ascii_ok(dp):
@@ -277,17 +276,106 @@ def opts_string_ops(rng, tier):
         for (e, d) in ((101, 46), (200, 46), (101, 255)):
             ops.append("pf f64 %s 0 0 %d %d %s %s %s 31" % (std, e, d, _h(nan), _h(inf), _h(infinity)))
         ops.append("wf f64 %s 3ff8000000000000 - - - - r 0 101 46 %s %s -" % (std, _h(nan), _h(inf)))
+        # the validators themselves (is_valid, build, *_is_valid): harness/src/comp_opts.rs
+        for (e, d) in ((101, 46), (127, 46), (101, 8), (9, 13)):
+            ops.append("po %d %d %s %s %s" % (e, d, _h(nan), _h(inf), _h(infinity)))
+    ops += opts_numeric_ops(rng, nans, infs)
     return list(dict.fromkeys(ops))
+
+
+DIGIT_PAIRS = [("-", "-"), ("3", "5"), ("5", "3"), ("5", "5"), ("1", "1"), ("0", "5"), ("5", "0"), ("3", "-"), ("-", "5"),
+               ("64", "64"), ("1", "2"), ("49", "50")]
+POS_BREAKS = ["-", "1", "9", "-1", "-9", "0"]
+NEG_BREAKS = ["-", "-1", "-5", "1", "5", "0"]
+
+
+def opts_numeric_ops(rng, nans, infs):
+    """write-side numeric options around every test of `OptionsBuilder::build` (max < min digits, exponent breaks of
+    the wrong sign), alone and combined with bad strings / punctuation so that the ORDER of the tests is observed"""
+    ops = []
+    std = "a0000000000000000000000000c"
+    for (mx, mn) in DIGIT_PAIRS:
+        for pb in POS_BREAKS:
+            for nb in NEG_BREAKS:
+                ops.append("wf f64 %s 3ff8000000000000 %s %s %s %s r 0 101 46 %s %s -" % (std, mx, mn, pb, nb, DEFAULT_NAN, DEFAULT_INF))
+                ops.append("wo %s %s %s %s 101 46 %s %s" % (mx, mn, pb, nb, DEFAULT_NAN, DEFAULT_INF))
+    mixes = [("3", "5", "-", "-"), ("-", "-", "-1", "-"), ("-", "-", "-", "1"), ("3", "5", "-1", "1"), ("-", "-", "-", "-")]
+    for (mx, mn, pb, nb) in mixes:
+        for (e, d) in ((101, 46), (200, 46), (101, 255), (127, 127)):
+            for nan in nans:
+                ops.append("wf f64 %s 3ff8000000000000 %s %s %s %s r 0 %d %d %s %s -" % (std, mx, mn, pb, nb, e, d, _h(nan), DEFAULT_INF))
+                ops.append("wo %s %s %s %s %d %d %s %s" % (mx, mn, pb, nb, e, d, _h(nan), DEFAULT_INF))
+            for inf in infs:
+                ops.append("wf f64 %s 3ff8000000000000 %s %s %s %s r 0 %d %d %s %s -" % (std, mx, mn, pb, nb, e, d, DEFAULT_NAN, _h(inf)))
+                ops.append("wo %s %s %s %s %d %d %s %s" % (mx, mn, pb, nb, e, d, DEFAULT_NAN, _h(inf)))
+        ops.append("bs f64 %s %s %s %s %s r 0 101 46 %s %s" % (std, mx, mn, pb, nb, DEFAULT_NAN, DEFAULT_INF))
+    return ops
+
+
+def _special_err(s, first, invalid, too_long):
+    letters = lambda x: all(ch in LETTERS or ch in LETTERS.upper() for ch in x)
+    if s is None:
+        return None
+    if s == "" or s[0] not in first or not letters(s):
+        return invalid
+    if len(s) > 50:
+        return too_long
+    return None
+
+
+def _ascii_ok(c):
+    """`Any non-control character is valid, but \\t to \\r are also valid` (options.rs)"""
+    return 9 <= c <= 13 or 32 <= c < 127
+
+
+def write_opts_spec(mx, mn, pb, nb, exp, dp, nan, inf):
+    """documented validity of WriteFloatOptions: error kind (in the order `build` documents them) or None"""
+    nz = lambda x: None if x in ("-", "0") else int(x)
+    mx, mn, pb, nb = nz(mx), nz(mn), nz(pb), nz(nb)
+    e = _special_err(nan, "Nn", "InvalidNanString", "NanStringTooLong") or \
+        _special_err(inf, "Ii", "InvalidInfString", "InfStringTooLong")
+    if e:
+        return e
+    if mx is not None and mn is not None and mx < mn:
+        return "InvalidFloatPrecision"
+    if nb is not None and nb > 0:
+        return "InvalidNegativeExponentBreak"
+    if pb is not None and pb < 0:
+        return "InvalidPositiveExponentBreak"
+    if not _ascii_ok(exp):
+        return "InvalidExponentSymbol"
+    if not _ascii_ok(dp):
+        return "InvalidDecimalPoint"
+    return None
 
 
 def op_check(op, ir, fs, profile):
     """option builders: the reported configuration error must be the documented one"""
     t = op.split(" ")
-    if t[0] != "pf" or len(t) != 11 or t[-1] != "31":
-        return None
     un = lambda h: None if h == "-" else ("" if h == "_" else bytes.fromhex(h).decode("latin-1"))
-    want = parse_opts_spec(int(t[5]), int(t[6]), un(t[7]), un(t[8]), un(t[9]))
     got = ir.split(" ")
+    if t[0] == "pf" and len(t) == 11 and t[-1] == "31":
+        want = parse_opts_spec(int(t[5]), int(t[6]), un(t[7]), un(t[8]), un(t[9]))
+    elif t[0] == "wf" and len(t) == 15:
+        want = write_opts_spec(t[4], t[5], t[6], t[7], int(t[10]), int(t[11]), un(t[12]), un(t[13]))
+    elif t[0] == "bs" and len(t) == 13:
+        want = write_opts_spec(t[3], t[4], t[5], t[6], int(t[9]), int(t[10]), un(t[11]), un(t[12]))
+    elif t[0] == "po":
+        # is_valid, build, Options::is_valid must all agree with the documented validity
+        want = parse_opts_spec(int(t[1]), int(t[2]), un(t[3]), un(t[4]), un(t[5]))
+        ok = "true" if want is None else "false"
+        if got[1] != (want or "ok") or got[0] != ok or got[5] != ok:
+            return "parse options: documented result %s, validators say `%s`" % (want or "ok", ir)
+        return None
+    elif t[0] == "wo":
+        # build must report the documented kind. (is_valid ignores the numeric options: reported as a finding by
+        # Props/C18Options.writeOptions_isValid_not_build_ok, not judged here.)
+        want = write_opts_spec(t[1], t[2], t[3], t[4], int(t[5]), int(t[6]), un(t[7]), un(t[8]))
+        if got[1] != (want or "ok"):
+            return "write options: documented result %s, build says `%s`" % (want or "ok", ir)
+        return None
+    else:
+        return None
     if want is None:
         return None if got[0] != "opterr" else "valid options rejected by the builder: " + ir
     if got[0] != "opterr" or got[1] != want:
